@@ -253,10 +253,12 @@ Definition last_adapter_name (ads : list padapter) (ms : list match_t) : option 
 Definition strip_suffix (suf : str) (n : str) : str :=
   if ends_with suf n then firstn (length n - length suf) n else n.
 
-(** LengthTagModifier, restricted to names in which every occurrence of the tag starts a
-    whitespace-delimited token and is followed by digits up to the end of that token
-    (the regex \btag[0-9]*\b with no backtracking); other names are outside the model *)
+(** LengthTagModifier: the regex \btag[0-9]*\b for a tag that begins with a word character, restricted to
+    names in which the digits behind an occurrence of the tag run up to a non-word character or the end of
+    the name (no backtracking needed); an occurrence counts when the character in front of it is not a
+    word character [A-Za-z0-9_] (space, ';', '/', ...) or when it opens the name; other names are outside the model *)
 Definition is_digit (c : Z) : bool := (48 <=? c) && (c <=? 57).
+Definition is_word (c : Z) : bool := is_digit c || ((65 <=? c) && (c <=? 90)) || ((97 <=? c) && (c <=? 122)) || (c =? 95).
 Fixpoint drop_digits (s : str) : str :=
   match s with c :: s' => if is_digit c then drop_digits s' else s | [] => [] end.
 
@@ -276,7 +278,7 @@ Fixpoint length_tag_aux (fuel : nat) (tag : str) (len : str) (at_boundary : bool
       | c :: s' =>
           if at_boundary && starts_with tag s
           then tag ++ len ++ length_tag_aux f tag len false (drop_digits (skipn (length tag) s))
-          else c :: length_tag_aux f tag len (c =? 32) s'
+          else c :: length_tag_aux f tag len (negb (is_word c)) s'
       end
   end.
 Definition length_tag_mod (tag : str) (r : read) : read :=
